@@ -801,4 +801,26 @@ end
 def cacheKeyBeq (kt : KeyTable) (t : FKeyTable) (a b : Form × Bool) : Bool :=
   FVal.beq (cacheKey kt t a) (cacheKey kt t b)
 
+/-! ### the in-process cache of `compile.compile_vform` (compile.py:99-132)
+
+`__vform_asm_cache` is a dict `cache_key ↦ assembler class`; a request looks its key up and only
+generates (`generate(vf, on_demand)` + compile) on a miss.  `gen` stands for that pipeline. -/
+
+abbrev AsmCache (Asm : Type) := List (FVal × Asm)
+
+def compileVform {Asm : Type} (gen : Form × Bool → Asm) (kt : KeyTable) (t : FKeyTable)
+    (c : AsmCache Asm) (r : Form × Bool) : AsmCache Asm × Asm :=
+  match c.find? (fun p => FVal.beq p.1 (cacheKey kt t r)) with
+  | some p => (c, p.2)
+  | none => ((cacheKey kt t r, gen r) :: c, gen r)
+
+/-- a whole history of requests, starting from the pre-seeded cache -/
+def compileAll {Asm : Type} (gen : Form × Bool → Asm) (kt : KeyTable) (t : FKeyTable) :
+    AsmCache Asm → List (Form × Bool) → AsmCache Asm × List Asm
+  | c, [] => (c, [])
+  | c, r :: rs =>
+      let (c1, a) := compileVform gen kt t c r
+      let (c2, as) := compileAll gen kt t c1 rs
+      (c2, a :: as)
+
 end Pyiga.VForm
